@@ -632,6 +632,12 @@ def c02_9(ctx):
     un = [s for s in ast.walk(fn.node) if isinstance(s, ast.Assign) and N(s.targets[0]) == '(xs, lids, rids)']
     if not un or N(un[0].value) != 'zip(*res)':
         ctx.fail(fn, un[0] if un else fn.node, 'the matched groups are not unpacked as xs, lids, rids = zip(*res)')
+    else:
+        # DEF-USE order: the per-group product sizes are computed from the UNPACKED id lists
+        nsdef = [s_ for s_ in body_nodes(fn.node) if isinstance(s_, ast.Assign) and U(s_.targets[0]) == 'ns']
+        if nsdef and nsdef[0].lineno < un[0].lineno:
+            ctx.fail(fn, nsdef[0], 'the group product sizes are computed before `xs, lids, rids = zip(*res)`: they are taken from the id lists of the grouping step, not from the matched groups',
+                     witness='duplicate keys plus an unmatched key that sorts before a matched one')
     ctx.count(1)
     ln = [s for s in fn.body if isinstance(s, ast.If) and any(isinstance(r0, ast.Raise) for r0 in s.body) and 'len(lcols)' in U(s.test)]
     if not ln or N(ln[0].test) != NS('len(lcols) != len(rcols)'):
